@@ -1,11 +1,17 @@
 package getput
 
 import (
+	"bytes"
 	"context"
 	"crypto/sha1"
+	"errors"
 	"net"
+	"runtime"
+	"strings"
 	"testing"
 	"time"
+
+	"github.com/anacrolix/dht/v2/bep44"
 
 	"github.com/anacrolix/dht/v2"
 	"github.com/anacrolix/dht/v2/krpc"
@@ -93,5 +99,45 @@ func TestGovcReplayGetput(t *testing.T) {
 	res, _, err := Get(ctx, target, s, nil, salt)
 	if err == nil {
 		t.Fatalf("an unverifiable reply was handed to the caller: %+v", res)
+	}
+}
+
+// Replay of a failed "the lookup started is stopped on every path" obligation of Get / Put (C14): the path where the
+// starting nodes cannot be obtained.
+func TestGovcReplayGetputStop(t *testing.T) {
+	m := govcLoad()
+	nw := &govcNet{in: make(chan govcPkt, 16), closed: make(chan struct{})}
+	cfg := dht.NewDefaultServerConfig()
+	cfg.Conn = nw
+	cfg.StartingNodes = func() ([]dht.Addr, error) { return nil, errors.New("no network") }
+	s, err := dht.NewServer(cfg)
+	if err != nil {
+		t.Fatal(err)
+	}
+	defer s.Close()
+	loops := func() int {
+		buf := make([]byte, 1<<20)
+		buf = buf[:runtime.Stack(buf, true)]
+		return bytes.Count(buf, []byte("traversal.(*Operation).run("))
+	}
+	before := loops()
+	var target [20]byte
+	for i := 0; i < 5; i++ {
+		ctx, cancel := context.WithTimeout(context.Background(), time.Second)
+		if strings.HasSuffix(m.Function, ".Put") {
+			_, err = Put(ctx, target, s, nil, func(int64) bep44.Put { return bep44.Put{V: "x"} })
+		} else {
+			_, _, err = Get(ctx, target, s, nil, nil)
+		}
+		cancel()
+		if err == nil {
+			t.Fatal("GOVC-REPLAY-SKIP: unexpectedly succeeded")
+		}
+	}
+	for i := 0; i < 50 && loops() > before; i++ {
+		time.Sleep(20 * time.Millisecond)
+	}
+	if n := loops() - before; n > 0 {
+		t.Fatalf("%d lookup goroutines are still running after 5 failed calls: the lookups were never stopped", n)
 	}
 }
